@@ -12,6 +12,10 @@ open <path> <virt_bits>              > open ok
 page <as> <frame>                    > page ok <idx> <pfn> 1 | page nodata
 rd <as> <addr>                       > rd ok <hex of 8 bytes> | rd nodata -
 conv <from> <to> <addr>              > conv ok <addr> | conv fail
+reinit <fetch> <os> <key> <kind> <value>   > reinit ok ok|fail|-
+      an option change (flags the translation dirty); fetch=1: followed by kdump_get_addrxlat,
+      whose set-up succeeds (os=0), fails after the wipe (os=1) or before it (os=2)
+kv <addr>                            > kv done      a read that needs translation (lazy set-up, succeeds)
 close
 ```
 `failAt` (1-based, 0 = never) is the number of the `realloc` call that fails.
@@ -45,6 +49,7 @@ structure St where
   one : Option PMap := none
   direct : Option Dump := none
   file : Option Dump := none
+  xlat : Xlat := {}
 
 def showStep (name : String) (r : Except Err Step) : String :=
   match r with
@@ -100,7 +105,27 @@ partial def loop (h : IO.FS.Stream) (st : St) : IO Unit := do
     loop h { st with file := d }
   | ["open", _, _] =>
     IO.println (if st.file.isSome then "> open ok" else "> open system")
-    loop h st
+    -- the harness sets the paging mode and fetches the translation handles
+    match st.file with
+    | some d => loop h { st with xlat := (revalidate d .ok (setOpt {})).2 }
+    | none => loop h st
+  | ["reinit", fetch, os, _key, kind, _val] =>
+    match st.file with
+    | none => IO.println "> reinit noctx"; loop h st
+    | some d =>
+      let x := if kind == "x" then st.xlat else setOpt st.xlat      -- x: no change, the application only asks again
+      if fetch == "1" then
+        let o : OsInit := if os == "0" then .ok else if os == "1" then .failWiped else .failEarly
+        let (ok, x') := revalidate d o x
+        IO.println (if ok then "> reinit ok ok" else "> reinit ok fail")
+        loop h { st with xlat := x' }
+      else
+        IO.println "> reinit ok -"
+        loop h { st with xlat := x }
+  | ["kv", _] =>
+    match st.file with
+    | none => IO.println "> kv noctx"; loop h st
+    | some d => IO.println "> kv done"; loop h { st with xlat := (revalidate d .ok st.xlat).2 }
   | ["close"] => loop h st
   | ["page", as, f] =>
     match st.file with
@@ -136,10 +161,12 @@ partial def loop (h : IO.FS.Stream) (st : St) : IO Unit := do
     match st.file with
     | none => IO.println "> conv noctx"
     | some d =>
-      let r := if f == "0" && t == "1" then p2m d a.toNat! else if f == "1" && t == "0" then m2p d a.toNat! else .error .nodata
+      let r := if f == "0" && t == "1" then convP2m d st.xlat a.toNat!
+               else if f == "1" && t == "0" then convM2p d st.xlat a.toNat! else some (.error .nodata)
       match r with
-      | .ok x => IO.println s!"> conv ok {x}"
-      | .error _ => IO.println "> conv fail"
+      | some (.ok x) => IO.println s!"> conv ok {x}"
+      | some (.error _) => IO.println "> conv fail"
+      | none => IO.println "> conv arch-default"
     loop h st
   | [] => loop h st
   | _ => IO.println "> bad-op"; loop h st
